@@ -173,6 +173,14 @@ def tag_canon(P, paths):
     rec(paths)
 
 
+def is_thread_join(e) -> bool:
+    f = e.extra.get("func", "")
+    if not f.endswith(".join"):
+        return False
+    recv = f[: -len(".join")]
+    return not (recv.startswith(("os.path", "'", '"', "b'", 'b"', "posixpath", "ntpath")) or recv.endswith((".path", "sep")))
+
+
 def is_queue_get(e) -> bool:
     if e.kind != "call":
         return False
@@ -254,7 +262,7 @@ def run(ctx) -> None:
                 locks_seen.add("queue.Queue.mutex")
                 for a in held:
                     edges.setdefault((a, "queue.Queue.mutex"), f"{where}: {e.fn}:{e.line}")
-            if e.kind == "call" and e.extra.get("func", "").endswith(".join") and held:
+            if e.kind == "call" and is_thread_join(e) and held:
                 join_sites.append((e, dict(held), where))
             if e.kind == "wait" and not e.extra.get("timed"):
                 others = {k: v for k, v in held.items() if k != e.extra["_canon"]}
@@ -404,6 +412,31 @@ def run(ctx) -> None:
         clash = sorted(set(others) & need)
         ctx.check(not clash, RW, f"{e.fn}: wait on {e.extra['_canon']} holding {sorted(others)}", f"a thread waits on the condition while holding {clash}, which the stop path that notifies it must take first", f"{e.fn}:{e.line}")
 
+    # ---------------------------------------------------------------- a thread is joined only after it was told to stop
+    RJ = ctx.rule("C06/join-after-stop", "on every path of a stop closure or API entry point, join() of a library thread comes after that thread's stop flag was set (and its stop hook ran): joining first waits for a thread nobody has woken", floor=1)
+    seen_js = set()
+    for where, plist in [(f"{T}.stop", sp) for T, sp in stops.items()] + [("entry", ALL_ENTRY_PATHS)]:
+        for p in plist:
+            evs = list(p.flat())
+            for i, x in enumerate(evs):
+                if not (x.kind == "call" and is_thread_join(x)):
+                    continue
+                f = x.extra.get("func", "")
+                recv = f[: -len(".join")]
+                joined = x.obj if recv == "self" else recv
+                flags = [j for j, y in enumerate(evs) if y.kind == "call" and y.extra.get("func") == "self._stopped_event.set" and y.obj == joined]
+                key = (x.fn, x.line, joined)
+                if not flags:
+                    if key not in seen_js:
+                        ctx.unresolved.append(f"join of `{joined}` at {x.fn}:{x.line}: no stop() of that object on the same path (stopped elsewhere); order not decided")
+                    seen_js.add(key)
+                    continue
+                ok = min(flags) < i
+                if key in seen_js and ok:
+                    continue
+                seen_js.add(key)
+                ctx.check(ok, RJ, f"{x.fn}: {f}() after stop of `{joined}`", f"`{joined}` is joined before it is told to stop on a path of {where}: the join waits for a thread that is still blocked in its loop", f"{x.fn}:{x.line}")
+
     # ---------------------------------------------------------------- every block has a waker
     nsites = 0
     for T, rp in runs.items():
@@ -545,6 +578,7 @@ VARIANTS = [
     dict(name="B debouncer stop without notify", expect="fire", rule="C06/", edits=[(DB, "            super().stop()\n            self._cond.notify()", "            super().stop()")]),
     dict(name="B dispatcher joined under the observer lock by unschedule_all", expect="fire", rule="C06/", edits=[(API, "            self._clear_emitters()\n            self._watches.clear()", "            self._clear_emitters()\n            self._watches.clear()\n            self.join()")]),
     dict(name="B emitter close not cleared (double close)", expect="fire", rule="C06/stop-idempotent", edits=[(IN, "            self._inotify.close()\n            self._inotify = None", "            self._inotify.close()")]),
+    dict(name="B buffer joined before it is stopped", expect="fire", rule="C06/join-after-stop", edits=[(IB, "        self.stop()\n        self.join()", "        self.join()\n        self.stop()")]),
     dict(name="B bounded event queue", expect="fire", rule="C06/producers-never-block", edits=[(API, "        self._event_queue = EventQueue()", "        self._event_queue = EventQueue(maxsize=4096)")]),
     dict(name="E explicitly unbounded event queue", expect="silent", edits=[(API, "        self._event_queue = EventQueue()", "        self._event_queue = EventQueue(maxsize=0)")]),
     dict(name="E notify -> notify_all", expect="silent", edits=[(DQ, "        self._not_empty.acquire()\n        self._not_empty.notify()\n        self._not_empty.release()", "        self._not_empty.acquire()\n        self._not_empty.notify_all()\n        self._not_empty.release()")]),
